@@ -760,3 +760,76 @@ func genXRPtr(r *rand.Rand, i int) *ExtendedReport {
 	x := govcXR(r, i)
 	return &x
 }
+
+// genCompound (C11): sequences of 0..6 packets over the kinds {SR, RR, SDES with CNAME (in the first or a later
+// chunk/item), SDES without CNAME, SDES with no chunks, BYE, feedback, APP, XR, Raw}, biased towards sequences
+// near the accept/reject boundary of the compound grammar.
+func genCompound(r *rand.Rand, i int) CompoundPacket {
+	var c CompoundPacket
+	mk := func(k int) Packet {
+		switch k {
+		case 0:
+			return govcPacket(r, 0)
+		case 1:
+			return govcPacket(r, 1)
+		case 2, 3: // SDES with a CNAME somewhere
+			s := govcSDES(r, true)
+			for ci := range s.Chunks {
+				for ii := range s.Chunks[ci].Items {
+					if s.Chunks[ci].Items[ii].Type == SDESCNAME {
+						s.Chunks[ci].Items[ii].Type = SDESName
+					}
+				}
+			}
+			if len(s.Chunks) == 0 {
+				s.Chunks = append(s.Chunks, SourceDescriptionChunk{Source: govcU32(r)})
+			}
+			ci := r.Intn(len(s.Chunks))
+			it := SourceDescriptionItem{Type: SDESCNAME, Text: govcText(r)}
+			items := s.Chunks[ci].Items
+			at := r.Intn(len(items) + 1)
+			items = append(items[:at:at], append([]SourceDescriptionItem{it}, items[at:]...)...)
+			s.Chunks[ci].Items = items
+			if k == 3 && r.Intn(2) == 0 { // a second CNAME later on
+				s.Chunks = append(s.Chunks, SourceDescriptionChunk{Source: govcU32(r), Items: []SourceDescriptionItem{{Type: SDESCNAME, Text: govcText(r)}}})
+			}
+			if len(s.Chunks) > 31 {
+				s.Chunks = s.Chunks[:31]
+			}
+			return &s
+		case 4: // SDES without CNAME
+			s := govcSDES(r, true)
+			for ci := range s.Chunks {
+				for ii := range s.Chunks[ci].Items {
+					if s.Chunks[ci].Items[ii].Type == SDESCNAME {
+						s.Chunks[ci].Items[ii].Type = SDESEmail
+					}
+				}
+			}
+			return &s
+		case 5:
+			return &SourceDescription{}
+		case 6:
+			return govcPacket(r, 3)
+		case 7:
+			return govcPacket(r, 5+r.Intn(6))
+		case 8:
+			return govcPacket(r, 4)
+		case 9:
+			return govcPacket(r, 13)
+		default:
+			return govcPacket(r, 14)
+		}
+	}
+	n := r.Intn(7)
+	for j := 0; j < n; j++ {
+		k := r.Intn(11)
+		if j == 0 && r.Intn(4) != 0 {
+			k = r.Intn(2)
+		} else if j > 0 && r.Intn(3) == 0 {
+			k = 1 + r.Intn(4)
+		}
+		c = append(c, mk(k))
+	}
+	return c
+}
